@@ -383,3 +383,54 @@ pub fn replay(ctx: &Ctx, v: &Value) -> Report {
     let _ = ber::hex(&[]);
     rep
 }
+
+// ---------------- the result of a refused StartTLS ----------------
+
+/// `LdapConnSettings::set_starttls(true)`: the server's answer to the StartTLS request is a result
+/// like any other; when it is not success (0) the caller must be handed exactly what the server
+/// sent (code, matched DN, text, referral list).  Code 10 (referral) is not success.
+pub fn starttls_results(ctx: &Ctx) -> Report {
+    use crate::lanes::starttls::{run, Got, Refusal};
+    let mut rep = Report::new();
+    let rt = tokio::runtime::Builder::new_multi_thread().worker_threads(2).enable_all().build().expect("rt");
+    let mut rng = crate::report::case_rng(ctx.seed, "starttls_results", 0);
+    let reps = if ctx.tiny { 1 } else { ctx.n(16, 400) };
+    let codes = [1u32, 2, 8, 10, 10, 12, 13, 50, 51, 52, 53, 80, 118, 4096];
+    let mut hung = false;
+    for r in 0..reps {
+        let rc = if r < codes.len() as u64 { codes[r as usize] } else { *rng.pick(&codes) };
+        let refs: Option<Vec<String>> = if rc == 10 || rng.chance(1, 4) { Some((0..1 + rng.usize(3)).map(|k| format!("ldap://tls{}.example.org/dc=x??sub", k)).collect()) } else { None };
+        let res = Res { rc, matched: if rng.bool() { "dc=matched".into() } else { String::new() }, text: format!("t:starttls:{}:{}", r, rng.ustring(12)), refs: refs.clone() };
+        let name = if rng.bool() { Some("1.3.6.1.4.1.1466.20037".to_string()) } else { None };
+        let refusal = Refusal { strays: vec![], res: res.clone(), name, split: rng.bool() };
+        let replay = json!({"lane":"starttls_results","rep":r,"rc":rc,"refs":refs});
+        if hung {
+            break;
+        }
+        match run(&rt, &refusal) {
+            Err(e) => rep.inconclusive(format!("starttls_results: {}", e)),
+            Ok(None) => rep.inconclusive("starttls_results: first attempt expired on the wall clock, the retry passed".to_string()),
+            Ok(Some(Got::Hang)) => {
+                hung = true;
+                rep.violation("C03:starttls:result-not-returned:establishment-pending", format!("refusal rc={} sent; with_settings still pending after 8 s and, alone, after 40 s", rc), replay)
+            }
+            Ok(Some(Got::Result { rc: grc, matched, text, refs: grefs })) => {
+                let want_refs = refs.clone().unwrap_or_default();
+                if grc != res.rc || matched != res.matched || text != res.text || grefs != want_refs {
+                    rep.violation(
+                        format!("C03:starttls:result-fields-differ:{}", if grc != res.rc { "rc" } else if grefs != want_refs { "refs" } else if text != res.text { "text" } else { "matched" }),
+                        format!("sent {:?}; caller got rc={} matched={:?} text={:?} refs={:?}", res, grc, matched, text, grefs),
+                        replay,
+                    );
+                } else {
+                    rep.count(if rc == 10 { "starttls_referral_result_returned" } else { "starttls_refusal_returned" }, 1);
+                }
+            }
+            Ok(Some(other)) => rep.violation(format!("C03:starttls:result-not-returned:rc{}", if rc == 10 { "10" } else { "-other" }), format!("sent {:?} in answer to the StartTLS request; caller got {:?}", res, other), replay),
+        }
+        rep.case(Some(fnv(format!("{}{:?}", rc, refs.is_some()).as_bytes())));
+    }
+    rt.shutdown_background();
+    rep.sample(json!({"lane":"starttls_results","codes":codes,"fields":["rc","matched","text","refs"]}));
+    rep
+}
